@@ -275,11 +275,22 @@ func child(t *testing.T, c Check) {
 	defer jf.Close()
 
 	last := time.Now()
-	for i := 0; i < n; i++ {
-		// cases are dealt to the workers by a hash of their index, so that
-		// case kinds that are selected by idx%k do not pile up on the same
-		// workers
-		if int((uint32(i)*2654435761)>>8)%nsh != shard {
+	// Cases are dealt to the workers round-robin in the order of a hash of
+	// their index: case kinds that are selected by idx%k do not pile up on
+	// the same workers, and every worker gets the same number of cases.
+	order := make([]int, n)
+	for i := range order {
+		order[i] = i
+	}
+	sort.Slice(order, func(a, b int) bool {
+		ha, hb := uint32(order[a])*2654435761, uint32(order[b])*2654435761
+		if ha != hb {
+			return ha < hb
+		}
+		return order[a] < order[b]
+	})
+	for pos, i := range order {
+		if pos%nsh != shard {
 			continue
 		}
 		fmt.Fprintf(jf, "%d\n", i)
@@ -495,6 +506,14 @@ func parent(t *testing.T, c Check) {
 				// handled by the check itself
 				_ = dump
 			}
+		} else if r.crashed && strings.Contains(r.stderr, "called from inside and outside synctest bubble") {
+			// A consistency check of the synctest runtime itself fired (seen
+			// once in ~70 000 bubbles, on a WaitGroup that is created, used
+			// and dropped inside one bubble). It says nothing about the
+			// property: the worker's remaining cases are lost.
+			inconc = append(inconc, fmt.Sprintf(
+				"worker %d died in case %s from a synctest runtime check (%s); its remaining cases were not run",
+				i, r.lastJ, crashLine(r.stderr)))
 		} else if r.crashed {
 			cs, _ := strconv.Atoi(r.lastJ)
 			total.Viol = append(total.Viol, Violation{
